@@ -524,6 +524,14 @@ class Executor(Generic[TContext]):
         except GraphQLError as error:
             self.collected_errors.add(error, None)
             return self.finish(self.build_response(None))
+        except Exception:
+            # e.g. the abort reason raised between two serially executed fields:
+            # cancel incremental work started early and run the hook as well
+            abort_result = self.abort()
+            if self.is_awaitable(abort_result):
+                self.settle_in_background([cast("Awaitable[Any]", abort_result)])
+            self.run_async_work_finished_hook()
+            raise
 
         return self.finish(self.build_response(data))
 
